@@ -74,7 +74,7 @@ impl BadKind {
 /// Build a picture that must be rejected. `like` gives mode/size; `inter` selects a P picture
 /// (when a reference exists) or an I picture as the carrier; `good_mbs` valid macroblocks precede
 /// the failing one ("failing at every depth").
-pub fn bad_picture(g: &mut Gen, cfg: &PicCfg, like: &Header, kind: BadKind, inter: bool, tr: u8) -> Vec<u8> {
+pub fn bad_picture(g: &mut Gen, _cfg: &PicCfg, like: &Header, kind: BadKind, inter: bool, tr: u8) -> Vec<u8> {
     let ptype = if inter { PicType::P } else { PicType::I };
     let mut hdr = gen_header(g, like.mode, like.version, like.size, ptype);
     hdr.tr = tr;
